@@ -73,7 +73,12 @@ func minimize(t *testing.T, c *Case, v Violation, progress *atomic.Int64, budget
 		return false
 	}
 	// 1. schedule
-	if !try(func(d *Case) bool { d.Sched.Tape = []uint16{}; d.Sched.Strategy = "first"; d.Sched.Seed = 0; return true }) {
+	if !try(func(d *Case) bool {
+		d.Sched.Tape = []uint16{}
+		d.Sched.Strategy = "first"
+		d.Sched.Seed = 0
+		return true
+	}) {
 		n := len(cur.Sched.Tape)
 		// shortest prefix (zeros after it)
 		lo, hi := 0, n
@@ -124,7 +129,11 @@ func minimize(t *testing.T, c *Case, v Violation, progress *atomic.Int64, budget
 		// 3. faults and per-op knobs
 		for oi := range cur.Ops {
 			for fi := len(cur.Ops[oi].Faults) - 1; fi >= 0; fi-- {
-				if try(func(d *Case) bool { f := d.Ops[oi].Faults; d.Ops[oi].Faults = append(f[:fi:fi], f[fi+1:]...); return true }) {
+				if try(func(d *Case) bool {
+					f := d.Ops[oi].Faults
+					d.Ops[oi].Faults = append(f[:fi:fi], f[fi+1:]...)
+					return true
+				}) {
 					changed = true
 				}
 			}
@@ -142,15 +151,79 @@ func minimize(t *testing.T, c *Case, v Violation, progress *atomic.Int64, budget
 				}
 			}
 			knobs := []func(d *Case) bool{
-				func(d *Case) bool { o := &d.Ops[oi]; if o.QLookbackMs == 0 { return false }; o.QLookbackMs = 0; return true },
-				func(d *Case) bool { o := &d.Ops[oi]; if o.Eng.LookbackMs == 0 { return false }; o.Eng.LookbackMs = 0; return true },
-				func(d *Case) bool { o := &d.Ops[oi]; if o.Eng.Optim == "none" { return false }; o.Eng.Optim = "none"; return true },
-				func(d *Case) bool { o := &d.Ops[oi]; if o.Shards <= 1 { return false }; o.Shards = 1; return true },
-				func(d *Case) bool { o := &d.Ops[oi]; if o.WrapMode == 0 { return false }; o.WrapMode = 0; return true },
-				func(d *Case) bool { o := &d.Ops[oi]; if o.DeadlineMs == 0 { return false }; o.DeadlineMs = 0; return true },
-				func(d *Case) bool { o := &d.Ops[oi]; if o.ClientCancelStep == 0 { return false }; o.ClientCancelStep = 0; return true },
-				func(d *Case) bool { o := &d.Ops[oi]; if o.Step == 0 || o.End == o.Start { return false }; o.End = o.Start; return true },
-				func(d *Case) bool { o := &d.Ops[oi]; if o.Step == 0 { return false }; o.End = o.Start; o.Step = 0; return true },
+				func(d *Case) bool {
+					o := &d.Ops[oi]
+					if o.QLookbackMs == 0 {
+						return false
+					}
+					o.QLookbackMs = 0
+					return true
+				},
+				func(d *Case) bool {
+					o := &d.Ops[oi]
+					if o.Eng.LookbackMs == 0 {
+						return false
+					}
+					o.Eng.LookbackMs = 0
+					return true
+				},
+				func(d *Case) bool {
+					o := &d.Ops[oi]
+					if o.Eng.Optim == "none" {
+						return false
+					}
+					o.Eng.Optim = "none"
+					return true
+				},
+				func(d *Case) bool {
+					o := &d.Ops[oi]
+					if o.Shards <= 1 {
+						return false
+					}
+					o.Shards = 1
+					return true
+				},
+				func(d *Case) bool {
+					o := &d.Ops[oi]
+					if o.WrapMode == 0 {
+						return false
+					}
+					o.WrapMode = 0
+					return true
+				},
+				func(d *Case) bool {
+					o := &d.Ops[oi]
+					if o.DeadlineMs == 0 {
+						return false
+					}
+					o.DeadlineMs = 0
+					return true
+				},
+				func(d *Case) bool {
+					o := &d.Ops[oi]
+					if o.ClientCancelStep == 0 {
+						return false
+					}
+					o.ClientCancelStep = 0
+					return true
+				},
+				func(d *Case) bool {
+					o := &d.Ops[oi]
+					if o.Step == 0 || o.End == o.Start {
+						return false
+					}
+					o.End = o.Start
+					return true
+				},
+				func(d *Case) bool {
+					o := &d.Ops[oi]
+					if o.Step == 0 {
+						return false
+					}
+					o.End = o.Start
+					o.Step = 0
+					return true
+				},
 				func(d *Case) bool {
 					o := &d.Ops[oi]
 					if o.Step == 0 || (o.End-o.Start)/o.Step < 2 {
@@ -184,11 +257,41 @@ func minimize(t *testing.T, c *Case, v Violation, progress *atomic.Int64, budget
 		}
 		// 4. store knobs
 		for _, k := range []func(d *Case) bool{
-			func(d *Case) bool { if d.Store.PermSeed == 0 { return false }; d.Store.PermSeed = 0; return true },
-			func(d *Case) bool { if !d.Store.SharedLabels { return false }; d.Store.SharedLabels = false; return true },
-			func(d *Case) bool { if !d.Store.Trim { return false }; d.Store.Trim = false; return true },
-			func(d *Case) bool { if d.Store.YieldEvery == 0 { return false }; d.Store.YieldEvery = 0; return true },
-			func(d *Case) bool { if d.Store.LatencyUs == 0 { return false }; d.Store.LatencyUs = 0; return true },
+			func(d *Case) bool {
+				if d.Store.PermSeed == 0 {
+					return false
+				}
+				d.Store.PermSeed = 0
+				return true
+			},
+			func(d *Case) bool {
+				if !d.Store.SharedLabels {
+					return false
+				}
+				d.Store.SharedLabels = false
+				return true
+			},
+			func(d *Case) bool {
+				if !d.Store.Trim {
+					return false
+				}
+				d.Store.Trim = false
+				return true
+			},
+			func(d *Case) bool {
+				if d.Store.YieldEvery == 0 {
+					return false
+				}
+				d.Store.YieldEvery = 0
+				return true
+			},
+			func(d *Case) bool {
+				if d.Store.LatencyUs == 0 {
+					return false
+				}
+				d.Store.LatencyUs = 0
+				return true
+			},
 		} {
 			if try(k) {
 				changed = true
